@@ -84,4 +84,19 @@ CLAIMS = {
                 'object between threads while mutating it, and that logging is off (documented exclusions).',
         'technique': 'interprocedural write-effect analysis over LLVM IR + CFG must-pass / dominance rules disabling each lazy cache + who-may-call on callbacks',
     },
+    'C16': {
+        'text': 'Decides the borrow discipline structurally, for every API history and every font: (1) a compile-fail witness that the one '
+                'class holding a borrowed table cannot be copied; (2) CFG typestate rules on that class: the constructor releases on a '
+                'failed check, release() calls release_table only for a non-null borrowed buffer, frees only an owned one and nulls the '
+                'pointer on every path, destructor / move-assignment release first, the move operations carry every field including the '
+                'ownership flag, decompress releases before it replaces the buffer; (3) who-may-call on get_table / release_table from the '
+                'IR call graph and their unreachability from the shaping API; (4) an interprocedural pointer-taint analysis showing no '
+                'table-derived pointer is stored into memory that outlives the table; (5) the destructor of every class frees each of the '
+                '45 allocator-assigned fields on every path and every function-local allocation reaches a release or hand-over on every '
+                'non-allocation-failure path (the failed gr_make_face exits); (6) the C09 rules that no table is asked for after '
+                'gr_face_preloadAll.  Allocator balance as a number is NOT decided.',
+        'note': 'Trusted: clang 14 (front end, code generator), tools/grfacts, tools/grir, rules/c16.py, rules/noescape.py, rules/dom.py; tabled '
+                'exceptions with reasons (placement-new Code objects, GlyphCache box block).  Allocation failure is outside the quantifier.',
+        'technique': 'compile-fail witness + CFG typestate/must-pass rules + who-may-call + interprocedural pointer-taint (escape) analysis on LLVM IR',
+    },
 }
